@@ -4,3 +4,6 @@ import ZbossModel.Props.C11
 #print axioms Zboss.Host.C11_ack_wait_inside_message
 #print axioms Zboss.Host.C11_task_steps_frame
 #print axioms Zboss.Host.C11_write_step
+#print axioms Zboss.Host.C11_trace
+#print axioms Zboss.Host.C11_contiguous
+#print axioms Zboss.Host.C11_no_fragment_after_end
